@@ -37,6 +37,23 @@ SPEC = {
  "C14b": ("itest", "octo-squirrel", "c14_addr_roundtrip", "client,server", False),
  "C15b": ("proj", None, ["run", "--offline"], None, False),
  "C16b": ("itest", "octo-squirrel-server", "c16_unknown_cipher", None, True),
+ # round 3
+ "C01c": ("proj", None, ["run", "--offline"], None, True),
+ "C02c": ("proj", None, ["run", "--offline"], None, True),
+ "C03c": ("itest", "octo-squirrel", "c03_eih_chain", None, False),
+ "C04c": ("itest", "octo-squirrel", "c04_small_chunk_segmentation", None, False),
+ "C05c": ("itest", "octo-squirrel-server", "c05_ws_tamper", None, True),
+ "C06c": ("itest", "octo-squirrel", "c06_udp_cipher_isolation", None, False),
+ "C07c": ("itest", "octo-squirrel", "c07_socks5_max_domain", None, False),
+ "C08c": ("itest", "octo-squirrel-server", "c08_flow_isolation", None, True),
+ "C09c": ("itest", "octo-squirrel", "c09_salt_race", None, False),
+ "C10c": ("itest", "octo-squirrel", "ss2022_salt_replay_window", None, False),
+ "C11c": ("proj", None, ["run", "--offline", "--", "CFG"], None, True),
+ "C12c": ("itest", "octo-squirrel-client", "udp_server_session", None, True),
+ "C13c": ("itest", "octo-squirrel", "socks5_handshake_segmentation", None, False),
+ "C14c": ("itest", "octo-squirrel", "c14_vmess_domain_literal", None, False),
+ "C15c": ("proj", None, ["run", "--offline"], None, True),
+ "C16c": ("itest", "octo-squirrel", "c16_identity_key_chain", None, False),
 }
 
 
@@ -67,13 +84,14 @@ def demo(idn, wt, out, env):
 
 
 def main():
-    for idn in sys.argv[1:]:
+    for idn in [a for a in sys.argv[1:] if not a.startswith('--')]:
         wt, out = f"/tmp/wt/{idn}", f"/tmp/wt/{idn}-out"
         patch = os.path.join(out, "patch.diff")
-        env = dict(os.environ, CARGO_TARGET_DIR=f"/tmp/wt/{idn}-target", CARGO_NET_OFFLINE="true", RUST_BACKTRACE="0")
+        env = dict(os.environ, CARGO_TARGET_DIR=f"/tmp/wt/{idn}/target", CARGO_NET_OFFLINE="true", RUST_BACKTRACE="0")
         res = {"id": idn}
         # make sure the patch is applied
         subprocess.run(["git", "checkout", "--", "."], cwd=wt)
+        subprocess.run(["git", "clean", "-fdq", "-e", "target"], cwd=wt)
         subprocess.run(["git", "checkout", "-q", "--detach", "main"], cwd=wt)
         res["base"] = subprocess.run(["git", "rev-parse", "HEAD"], cwd=wt, capture_output=True, text=True).stdout.strip()
         if os.path.exists(os.path.join(out, "patch.rebased.diff")):
@@ -92,7 +110,8 @@ def main():
         res["demo_passes_without_patch"] = rc2 == 0
         res["demo_without_patch_tail"] = o2[-400:]
         subprocess.run(["git", "apply", patch], cwd=wt)
-        shutil.rmtree(env["CARGO_TARGET_DIR"], ignore_errors=True)
+        if "--keep-target" not in sys.argv:
+            shutil.rmtree(env["CARGO_TARGET_DIR"], ignore_errors=True)
         json.dump(res, open(os.path.join(out, "confirm.json"), "w"), indent=1)
         print(idn, res["patch_applies"], res["tests_pass_with_patch"], res["demo_fails_with_patch"], res["demo_passes_without_patch"], flush=True)
 
